@@ -641,6 +641,34 @@ class Refused:
 
 
 # ---------------------------------------------------------------- data frames and copies (added cells)
+def _helper_name_taken(which):
+    """create_multi_tag(name, <plain positions>, <plain extents>) while an array called
+    '<name>-positions' / '<name>-extents' already exists: refused, and the existing array (which
+    other entities may link) must survive the roll-back."""
+    def fn(run, o):
+        suf = "-" + which
+        arrs = [a for a in run.enum("array") if a.name.endswith(suf) and len(a.name) > len(suf)]
+        if not arrs:
+            return None
+        a = arrs[o["a"] % len(arrs)]
+        b = a.parent_
+        n = a.name[:-len(suf)]
+        if n in names_of(b.multi_tags):
+            return None
+        other = "-extents" if which == "positions" else "-positions"
+        if which == "extents" and (n + other) in names_of(b.data_arrays):
+            pos = run.R(next(x for x in b.data_arrays if x.name == n + other), 0)
+        else:
+            pos = [1.0, 2.0]
+        bh = run.R(b, 0)
+        return (lambda: bh.create_multi_tag(n, "t", pos, [0.5, 0.5])), None
+    CELLS[("create_multi_tag", "helper_array_name_taken:" + which)] = fn
+
+
+_helper_name_taken("positions")
+_helper_name_taken("extents")
+
+
 def _frame_cells():
     from collections import OrderedDict
 
@@ -692,6 +720,8 @@ def _frame_cells():
     writer("append_column:wrong_length", lambda h, m: h.append_column([1.0] * (len(m.rows) + 1), "zz-new", datatype=float), False)
     writer("append_column:duplicate_name", lambda h, m: h.append_column([1.0] * len(m.rows), m.cols[0][0], datatype=float), False)
     writer("append_rows:wrong_width", lambda h, m: h.append_rows([good_row(m) + [1]]), False)
+    writer("append_rows:second_row_wrong_width", lambda h, m: h.append_rows([good_row(m), good_row(m) + [1]]), False)
+    writer("append_rows:last_row_wrong_type", lambda h, m: h.append_rows([good_row(m), good_row(m), [object()] * len(m.cols)]), False)
     writer("write_rows:row_out_of_range", lambda h, m: h.write_rows([good_row(m)], [len(m.rows) + 1]))
     writer("write_rows:wrong_width", lambda h, m: h.write_rows([good_row(m) + [1]], [0]))
     writer("write_rows:count_mismatch", lambda h, m: h.write_rows([good_row(m), good_row(m)], [0]))
